@@ -28,7 +28,7 @@ func recPaths(ti *mon.TraceIndex, rec string) []string {
 func c08(args []string) {
 	c := chk.New("C08", "exploration", args)
 	c.Build(false)
-	c.Rule("chains and trees of 1-3 processing stages with 3-40 items; recorder components in front of every in-port (single sender, so their log is the arrival order) and behind every out-port; task durations assigned so that completion order is the reverse or a random permutation of arrival order; slots in {2,4,16}, SCIPIPE_BUFSIZE in {1,3,128}, slow downstream recorders (buffers fill up), some middle tasks skipped because their outputs pre-exist, fan-in of two upstreams through a recording merge point; bundled components between recorders (FileCombinator: first occurrences on each out-port in arrival order; IPSelectorSync: selected items in arrival order; MapToTags: pass-through, also with a map function that tags only every third file; sub-stream members in a joined placeholder, also with a file arriving twice) with file names whose arrival order is not lexicographic; oracle: sequence behind each out-port == image (through the reference's task -> out-path map) of the sequence recorded in front of the in-port; projection of a merged sequence onto each upstream == that upstream's own output sequence; every item passing a recorder behind a non-streaming out-port of a command / Go-function process must be a file at that moment (the recorder stats it on reception). distinct_nontrivial = runs in which the completion order of some process really differed from its arrival order (measured from the commands' end stamps), distinct by (shape, config, permutation)")
+	c.Rule("chains and trees of 1-3 processing stages with 3-40 items; recorder components in front of every in-port (single sender, so their log is the arrival order) and behind every out-port; task durations assigned so that completion order is the reverse or a random permutation of arrival order; slots in {2,4,16}, SCIPIPE_BUFSIZE in {1,3,128} (and 0 = unbuffered with a two-out-port process read by two recorders), a parameter source fanned out to the parameter ports of a slow and a quick process (values > buffer), slow downstream recorders (buffers fill up), some middle tasks skipped because their outputs pre-exist, fan-in of two upstreams through a recording merge point; bundled components between recorders (FileCombinator: first occurrences on each out-port in arrival order; IPSelectorSync: selected items in arrival order; MapToTags: pass-through, also with a map function that tags only every third file; sub-stream members in a joined placeholder, also with a file arriving twice) with file names whose arrival order is not lexicographic; oracle: sequence behind each out-port == image (through the reference's task -> out-path map) of the sequence recorded in front of the in-port; projection of a merged sequence onto each upstream == that upstream's own output sequence; every item passing a recorder behind a non-streaming out-port of a command / Go-function process must be a file at that moment (the recorder stats it on reception). distinct_nontrivial = runs in which the completion order of some process really differed from its arrival order (measured from the commands' end stamps), distinct by (shape, config, permutation)")
 	c.Assume("recorders are harness components written against the public BaseProcess/InPort/OutPort API")
 	rng := c.Rand("c08")
 	type job struct {
@@ -529,5 +529,122 @@ func c08(args []string) {
 			c.Sample(map[string]interface{}{"stages": len(j.stages), "fan_in": j.fanin, "items": len(recPaths(ti, j.stages[0]+"in")), "cfg": j.cfg, "completion_order_differed": reordered})
 		}
 	})
+	c08edgeConfigs(c)
 	c.Finish()
+}
+
+// c08edgeConfigs: (a) unbuffered connections (SCIPIPE_BUFSIZE=0) with a process that has two out-ports, each read by
+// a recorder of its own, later tasks finishing long before earlier ones; (b) a parameter out-port connected to the
+// parameter in-ports of two processes, more values than buffer slots, one receiver slower than the other: the tasks of
+// each receiver are created, and their outputs leave, in the order the values were sent.
+func c08edgeConfigs(c *chk.Ctx) {
+	run.Parallel(c.Pick(6, 24), func(i int) {
+		root := c.CaseDir()
+		defer c.Drop(root)
+		n := 6 + i%4
+		s := &spec.Spec{Name: fmt.Sprintf("unbuffered%d", i), MaxTasks: n, Sources: map[string]string{}}
+		src := &spec.Proc{Name: "src", Kind: spec.KFileSource}
+		for k := 0; k < n; k++ {
+			f := fmt.Sprintf("ub_%02d.txt", (k*5+i)%n)
+			src.Files = append(src.Files, f)
+			s.Sources[f] = f
+		}
+		s.Procs = append(s.Procs, src, &spec.Proc{Name: "RIN", Kind: spec.KRecorder},
+			&spec.Proc{Name: "P", Kind: spec.KCmd, Cmd: spec.BuildCmd("P", []spec.PortDecl{{Name: "in"}}, []spec.PortDecl{{Name: "a"}, {Name: "b"}}, nil, nil, nil)},
+			&spec.Proc{Name: "RA", Kind: spec.KRecorder}, &spec.Proc{Name: "RB", Kind: spec.KRecorder, DelayMS: []int{0, 20}[i%2]})
+		s.Conns = append(s.Conns, &spec.Conn{From: "src.out", To: "RIN.in"}, &spec.Conn{From: "RIN.out", To: "P.in"}, &spec.Conn{From: "P.a", To: "RA.in"}, &spec.Conn{From: "P.b", To: "RB.in"})
+		exp := evalRef(s, nil)
+		if exp.Err != "" {
+			c.Broken("reference cannot evaluate the unbuffered shape: " + exp.Err)
+		}
+		bh := vproto.Behaviours{}
+		for k, t := range exp.ByProc["P"] {
+			bh[t.Key] = map[string]string{"sleep": fmt.Sprint(10 + 25*(n-k))}
+		}
+		cfg := Cfg{Buf: -1, Procs: []int{2, 4}[i%2], NoHooks: i%2 == 0}
+		desc := map[string]interface{}{"spec": s, "cfg": cfg, "behav": bh, "SCIPIPE_BUFSIZE": 0}
+		res := execSpec(c, root, s, cfg, bh, false, 0)
+		if res.Hang != "" {
+			if strings.HasPrefix(res.Hang, "deadlock") {
+				c.Violation("unbuffered-hang", res.Hang+"\n"+res.HangInfo, desc)
+			} else {
+				c.Inconclusive(res.Hang)
+			}
+			return
+		}
+		if res.Exit != 0 || !res.Returned {
+			c.Violation("unbuffered-run-failed", fmt.Sprintf("exit %d: %s", res.Exit, tail(res.Output(), 500)), desc)
+			return
+		}
+		ti := mon.Index(res.Trace)
+		arr := recPaths(ti, "RIN")
+		for _, pr := range [][2]string{{"RA", "a"}, {"RB", "b"}} {
+			got := recPaths(ti, pr[0])
+			var want []string
+			for _, a := range arr {
+				for _, t := range exp.ByProc["P"] {
+					if t.In["in"].Path == a {
+						want = append(want, t.Outs[pr[1]])
+					}
+				}
+			}
+			if strings.Join(got, " ") != strings.Join(want, " ") {
+				c.Violation("order-not-preserved:unbuffered-two-out-ports", fmt.Sprintf("inputs arrived as %v, so port %s must emit %v, but emitted %v", arr, pr[1], want, got), desc)
+				return
+			}
+		}
+		c.Count("unbuffered_runs", 1)
+		c.Nontrivial(fmt.Sprintf("unbuffered|%d|%v", n, cfg))
+	})
+	run.Parallel(c.Pick(8, 30), func(i int) {
+		root := c.CaseDir()
+		defer c.Drop(root)
+		n := 8 + i%5
+		buf := []int{1, 2, 3}[i%3]
+		s := &spec.Spec{Name: fmt.Sprintf("paramfanout%d", i), MaxTasks: 4, Sources: map[string]string{}}
+		ps := &spec.Proc{Name: "ps", Kind: spec.KParamSource}
+		for k := 0; k < n; k++ {
+			ps.Values = append(ps.Values, fmt.Sprintf("v%02d", (k*7+i)%n))
+		}
+		s.Procs = append(s.Procs, ps,
+			&spec.Proc{Name: "QA", Kind: spec.KCmd, Cmd: spec.BuildCmd("QA", nil, []spec.PortDecl{{Name: "out"}}, []string{"v"}, nil, nil), Outs: []*spec.Out{{Port: "out", Pattern: "qa_{p:v}.out"}}},
+			&spec.Proc{Name: "QB", Kind: spec.KCmd, Cmd: spec.BuildCmd("QB", nil, []spec.PortDecl{{Name: "out"}}, []string{"v"}, nil, nil), Outs: []*spec.Out{{Port: "out", Pattern: "qb_{p:v}.out"}}},
+			&spec.Proc{Name: "RA", Kind: spec.KRecorder}, &spec.Proc{Name: "RB", Kind: spec.KRecorder})
+		s.Conns = append(s.Conns, &spec.Conn{From: "ps.out", To: "QA.v", Param: true}, &spec.Conn{From: "ps.out", To: "QB.v", Param: true}, &spec.Conn{From: "QA.out", To: "RA.in"}, &spec.Conn{From: "QB.out", To: "RB.in"})
+		// one receiver is slow (its parameter in-port fills up), the other one quick; which one varies
+		slow, quick := "QA", "QB"
+		if i%2 == 1 {
+			slow, quick = "QB", "QA"
+		}
+		bh := vproto.Behaviours{slow: {"sleep": "60"}, quick: {"sleep": "3"}}
+		cfg := Cfg{Buf: buf, Procs: []int{2, 4}[i%2], MaxTasks: []int{2, 4}[(i/2)%2], NoHooks: i%2 == 0}
+		desc := map[string]interface{}{"spec": s, "cfg": cfg, "behav": bh}
+		res := execSpec(c, root, s, cfg, bh, false, 0)
+		if res.Hang != "" {
+			if strings.HasPrefix(res.Hang, "deadlock") {
+				c.Violation("paramfanout-hang", res.Hang+"\n"+res.HangInfo, desc)
+			} else {
+				c.Inconclusive(res.Hang)
+			}
+			return
+		}
+		if res.Exit != 0 || !res.Returned {
+			c.Violation("paramfanout-run-failed", fmt.Sprintf("exit %d: %s", res.Exit, tail(res.Output(), 500)), desc)
+			return
+		}
+		ti := mon.Index(res.Trace)
+		for _, pr := range [][2]string{{"RA", "qa_"}, {"RB", "qb_"}} {
+			got := recPaths(ti, pr[0])
+			var want []string
+			for _, v := range ps.Values {
+				want = append(want, pr[1]+v+".out")
+			}
+			if strings.Join(got, " ") != strings.Join(want, " ") {
+				c.Violation("order-not-preserved:parameter-fan-out", fmt.Sprintf("the parameter source sent %v to both receivers, so %s must see %v, but saw %v", ps.Values, pr[0], want, got), desc)
+				return
+			}
+		}
+		c.Count("param_fanout_runs", 1)
+		c.Nontrivial(fmt.Sprintf("paramfanout|%d|%v", n, cfg))
+	})
 }
